@@ -284,6 +284,26 @@ def run_history(name, rng, res):
                      f"earlier constructions in the same process than in a fresh process",
                 replay=dict(kind="gen-history", name=name, prior=prior,
                             fresh=base["fingerprint"][:16], with_history=hist["fingerprint"][:16])))
+        # the same seed through the package's top-level entry points, in two processes
+        sd = rng.randint(0, 1000)
+        api = [run_worker(dict(_api_seeded=dict(name=name, seed=sd)), hs) for hs in ("0", "random")]
+        if all(a.get("ok") for a in api):
+            vals = {k: {a[k] for a in api} for k in ("env", "env_again", "scenario", "gen_env", "gen_scenario")}
+            if len(vals["env"] | vals["env_again"] | vals["scenario"]) > 1:
+                res["findings"].append(dict(property="C14", kind="failing-input",
+                    what=f"nasim.make_benchmark('{name}', seed={sd}) does not always hold the scenario "
+                         f"make_benchmark_scenario('{name}', {sd}) returns (two calls, two processes)",
+                    replay=dict(kind="gen-api", name=name, seed=sd, fingerprints={k: sorted(x[:12] for x in v) for k, v in vals.items()})))
+            if len(vals["gen_env"] | vals["gen_scenario"]) > 1:
+                res["findings"].append(dict(property="C14", kind="failing-input",
+                    what=f"nasim.generate(6, 2, seed={sd}, num_os=2) does not always hold the scenario generate_scenario returns "
+                         "for the same arguments (two processes)",
+                    replay=dict(kind="gen-api", seed=sd, fingerprints={k: sorted(x[:12] for x in v) for k, v in vals.items()})))
+        else:
+            bad = next(a for a in api if not a.get("ok"))
+            res["findings"].append(dict(property="C14", kind="failing-input",
+                what=f"a seeded top-level entry point fails: {bad.get('error')} {str(bad.get('message'))[:100]}",
+                replay=dict(kind="gen-api", name=name, seed=sd)))
         res["sample"] = dict(history=prior, name=name)
     except Exception as e:
         res["error"] = "".join(traceback.format_exception(type(e), e, e.__traceback__))[-3000:]
